@@ -16,7 +16,7 @@ import (
 )
 
 // c14RunScript drives a reader the way the driver lane `c14reader` does.
-func c14RunScript(rd io.ReadCloser, expect []byte, closeAfter int, sizes, extra []int) string {
+func c14RunScript(rd io.ReadCloser, expect []byte, closeAfter int, sizes, extra []int) (canon string, raw []byte) {
 	var data []byte
 	term := "-"
 	limit := 4*len(expect) + 4096
@@ -30,7 +30,7 @@ func c14RunScript(rd io.ReadCloser, expect []byte, closeAfter int, sizes, extra 
 		}
 		n, err := rd.Read(buf)
 		if n < 0 || n > len(buf) {
-			return "bad-count"
+			return "bad-count", nil
 		}
 		data = append(data, buf[:n]...)
 		if err != nil {
@@ -48,6 +48,11 @@ func c14RunScript(rd io.ReadCloser, expect []byte, closeAfter int, sizes, extra 
 		after = append(after, verifh.Hex(string(buf[:k]))+":"+verifc14.Term(err))
 	}
 	d := verifh.Hex(string(data))
+	if strings.HasPrefix(term, "err") {
+		// how much a decoder hands out before it reports an error depends on how its input
+		// arrives; the property is about the error. Garbage is judged by the oracle (rawData).
+		d = "partial"
+	}
 	if closeAfter > 0 {
 		if bytes.HasPrefix(expect, data) {
 			d = "prefix"
@@ -60,7 +65,7 @@ func c14RunScript(rd io.ReadCloser, expect []byte, closeAfter int, sizes, extra 
 	if len(after) > 0 {
 		a = strings.Join(after, ",")
 	}
-	return "data=" + d + " t=" + term + " after=" + a
+	return "data=" + d + " t=" + term + " after=" + a, data
 }
 
 // ---------------------------------------------------------------- lanes
@@ -253,11 +258,12 @@ func TestVerif_C14_readers(t *testing.T) {
 			src.Chunk = 1 + r.Intn(40)
 		}
 		var got string
+		var raw []byte
 		id := fmt.Sprintf("%s/%s#%d", st.alg, st.kind, i)
 		human := fmt.Sprintf("%s %s payload=%dB wire=%dB sizes=%v closeAfter=%d extra=%v ref=(%s,%dB,%s)", st.alg, st.kind, len(st.payload), len(st.wire), sizes, closeAfter, extra, open, len(out), term)
 		if p, bad := verifh.Safely(func() {
 			rd := NewCompressReader(src, st.alg)
-			got = c14RunScript(rd, out, closeAfter, sizes, extra)
+			got, raw = c14RunScript(rd, out, closeAfter, sizes, extra)
 			rd.Close()
 		}); bad {
 			s.Crash(id, human, p, "")
@@ -274,7 +280,7 @@ func TestVerif_C14_readers(t *testing.T) {
 			case "trunc":
 				// a strict, non-empty prefix of a single-member stream: never a clean end
 				ok = strings.HasPrefix(gotTerm, "err")
-				if gotData != "_" && !bytes.HasPrefix(st.payload, []byte(verifh.UnHex(gotData))) {
+				if !bytes.HasPrefix(st.payload, raw) {
 					ok = false // garbage before the error
 				}
 			case "srcerr":
@@ -306,14 +312,6 @@ func TestVerif_C14_readers(t *testing.T) {
 		if closeAfter >= 0 {
 			count("close")
 		}
-		line := "c14reader lazy " + open + " " + verifh.Hex(string(out)) + " " + term + " " + strconv.Itoa(closeAfter) + " " + verifh.IntList(sizes) + " " + verifh.IntList(extra)
-		if len(out) > 8192 { // keep driver lines small: judge the big ones in Go against the reference
-			want := "data=" + verifh.Hex(string(out)) + " t=" + term
-			okBig := ok && strings.HasPrefix(got, want+" ")
-			s.Observe(id, okBig, "", true, human, c14Short(got))
-			count("big")
-			continue
-		}
 		class := ""
 		switch {
 		case st.alg == "br" && st.kind == "trunc" && term == "eof":
@@ -327,6 +325,21 @@ func TestVerif_C14_readers(t *testing.T) {
 		case st.alg == "br" && strings.HasPrefix(term, "err") && len(extra) > 0 && closeAfter < 0:
 			// the library is not sticky (error, then io.EOF) and BrotliReader.berr is never set
 			class = "br-not-sticky"
+		}
+		kind := "lazy"
+		if st.alg == "br" {
+			kind = "lazykeep" // BrotliReader records every error itself (fixes/C14-4)
+		}
+		line := "c14reader " + kind + " " + open + " " + verifh.Hex(string(out)) + " " + term + " " + strconv.Itoa(closeAfter) + " " + verifh.IntList(sizes) + " " + verifh.IntList(extra)
+		if len(out) > 8192 { // keep driver lines small: judge the big ones in Go against the reference
+			want := "data=" + verifh.Hex(string(out)) + " t=" + term
+			if strings.HasPrefix(term, "err") {
+				want = "data=partial t=" + term
+			}
+			okBig := ok && strings.HasPrefix(got, want+" ")
+			s.Observe(id, okBig, class, true, human, c14Short(got))
+			count("big")
+			continue
 		}
 		s.Case(line, got, ok, class, st.kind != "empty", human+" -> "+c14Short(got))
 	}
